@@ -23,7 +23,7 @@ REAL = ["rpyc.core.protocol.Connection (serve/_dispatch/_seq_request_callback/_a
 STUB = ["peer = re-ordering reference peer (ref/peer.py + props/thr.py)", "threads/locks/condition/clock = simulator", "line pre-emption via sys.settrace"]
 ASSUMPTIONS = ["source-line pre-emption granularity", "liveness is judged in full only for waits that did not start after another thread received "
                "the awaited reply (known finding D7, shared with C14)"]
-PROBES = ["c13:foreign-reply", "thr:taint-poll", "thr:taint-cond.wait", "c13:callback-served"]
+PROBES = ["c13:foreign-reply", "thr:taint-poll", "thr:taint-cond.wait", "c13:callback-served", "c13:unsendable-request"]
 TRACE_FILES = thr.TRACE_FILES
 TRACE_FUNCS = thr.TRACE_FUNCS
 CHUNK = 40
@@ -46,10 +46,10 @@ def run_one(choices, params):
     for t in range(nthreads):
         pl = []
         for _ in range(1 + w.draw(3)):
-            pl.append({"tok": tokn, "kind": w.pick(("sync", "sync", "async")), "mode": w.pick(("v", "v", "v", "x", "o"))})
+            pl.append({"tok": tokn, "kind": w.pick(("sync", "sync", "async")), "mode": w.pick(("v", "v", "v", "x", "o", "v", "v", "x", "o", "b", "m"))})
             tokn += 1
         plans.append(pl)
-    total = tokn
+    total = sum(1 for pl in plans for p_ in pl if p_["mode"] != "b")      # mode b: the request cannot be encoded and never leaves
     info = {"foreign": 0, "known": [], "states": set()}
 
     def main(sim, k):
@@ -65,6 +65,7 @@ def run_one(choices, params):
             rpyc.BgServingThread.SLEEP_INTERVAL = 0.125
             bg = rpyc.BgServingThread(conn)
         done = [0]
+        unsendable = set()      # sequence numbers drawn for requests that could not be encoded (they never reach the wire)
         completions = {}        # tok -> count
         problems = []           # liveness findings (decided after the run: known vs violation)
         keep = []
@@ -72,8 +73,8 @@ def run_one(choices, params):
         def check_value(p, r):
             if p["mode"] == "v" and r != ("r", (p["tok"], "v")):
                 raise core.Violation("crossed-reply", "request tok=%d returned %r" % (p["tok"], r))
-            if p["mode"] == "o":
-                if r[0] != (p["tok"], "o"):
+            if p["mode"] in ("o", "m"):
+                if r[0] != (p["tok"], p["mode"]):
                     raise core.Violation("crossed-reply", "request tok=%d returned %r" % (p["tok"], r[0]))
                 keep.append(r)
             if p["mode"] == "x":
@@ -93,6 +94,13 @@ def run_one(choices, params):
                     raise core.Violation("crossed-reply", "request tok=%d raised KeyError%r" % (p["tok"], e.args))
             except TimeoutError:
                 outcome = "timeout"
+            except UnicodeEncodeError:
+                outcome = "unsendable"
+                if p["mode"] != "b":
+                    raise core.Violation("caller-raised/UnicodeEncodeError", "an encodable request could not be sent")
+                if seq is not None:
+                    unsendable.add(seq)
+                sim.count("c13:unsendable-request")
             t1 = sim.now
             completions[p["tok"]] = completions.get(p["tok"], 0) + 1
             td = spy.done.get(seq)
@@ -121,7 +129,7 @@ def run_one(choices, params):
                         box = {}
 
                         def do(p=p):
-                            return conn.sync_request(consts.HANDLE_PING, (p["tok"], p["mode"]))
+                            return conn.sync_request(consts.HANDLE_PING, (p["tok"], p["mode"]) + (("caf\udce9.txt",) if p["mode"] == "b" else ()))
                         # the seq is known only after the request is issued: look it up afterwards
                         tstart = sim.now
                         res = None
@@ -130,7 +138,7 @@ def run_one(choices, params):
                             exc = None
                             try:
                                 r = do()
-                            except (KeyError, TimeoutError) as e:
+                            except (KeyError, TimeoutError, UnicodeEncodeError) as e:
                                 exc = e
                             mine = sorted(s for s in spy.owner if s not in before and spy.owner[s] == tid)
                             seq = mine[0] if mine else None
@@ -143,8 +151,19 @@ def run_one(choices, params):
                         finally:
                             pass
                     else:
-                        res = conn.async_request(consts.HANDLE_PING, (p["tok"], p["mode"]), timeout=timeout)
+                        try:
+                            res = conn.async_request(consts.HANDLE_PING, (p["tok"], p["mode"]) + (("caf\udce9.txt",) if p["mode"] == "b" else ()),
+                                                     timeout=timeout)
+                        except UnicodeEncodeError:
+                            res = None
                         mine = sorted(s for s in spy.owner if s not in before and spy.owner[s] == tid)
+                        if res is None:
+                            if p["mode"] != "b":
+                                raise core.Violation("caller-raised/UnicodeEncodeError", "an encodable request could not be sent")
+                            unsendable.update(mine)
+                            completions[p["tok"]] = completions.get(p["tok"], 0) + 1
+                            sim.count("c13:unsendable-request")
+                            continue
                         pend.append((p, mine[0] if mine else None, res))
                 for p, seq, res in pend:
                     st = spy.awaiting.setdefault(tid, [])
@@ -183,7 +202,7 @@ def run_one(choices, params):
                                      % len(conn._send_queue))
             seqs = [e[2] for e in ledger if e[0] == "A>B" and e[1] == "req"]
             caller_ids = set(t.id for t in tasks)       # (the background thread may be between numbering and sending a request of its own)
-            unsent = sorted(s_ for s_, o_ in spy.owner.items() if o_ in caller_ids and s_ not in set(seqs))
+            unsent = sorted(s_ for s_, o_ in spy.owner.items() if o_ in caller_ids and s_ not in set(seqs) and s_ not in unsendable)
             if unsent:
                 raise core.Violation("request-stranded", "requests with sequence numbers %r were issued (callback registered) but never "
                                      "appeared on the wire" % (unsent,))
@@ -201,6 +220,7 @@ def run_one(choices, params):
                 raise core.Violation("callback-left", "responses dispatched but callbacks still registered for seqs %r" % (left,))
             # ---- liveness (known-finding aware) ------------------------------------------------------------
             spy.check_missed()
+            spy.check_builtin_inspect(rp)
             for cls, tainted, detail, where in problems:
                 if tainted:
                     info["known"].append(cls)
